@@ -18,7 +18,7 @@ type taint struct {
 	params map[*ssa.Parameter]bool
 	work   []*ssa.Function
 	inWork map[*ssa.Function]bool
-	objs   map[ssa.Value]bool // local buffers that received tainted content
+	objs   map[ssa.Value]bool  // local buffers that received tainted content
 	fields map[*types.Var]bool // struct fields that received tainted values (experimental heap taint)
 	heap   bool
 }
